@@ -1,6 +1,6 @@
 """Rules shared by C04 (insert), C05 (refine), C06 (remove): per-direction blocks of operations.* and the object wrappers."""
 import ast
-from .model import norm, AnalysisError, walk_no_nested, params_of
+from .model import norm, AnalysisError, walk_no_nested, params_of, mirror_compare, MIRROR_OP
 from .cfg import CFG
 from .poly import Poly, to_poly, NotPoly
 from .alg import Subst
@@ -188,14 +188,18 @@ def guard_rule(m, run, fi, op):
                     continue
                 comps = [e] if isinstance(e, ast.Compare) else ([v for v in e.values if isinstance(v, ast.Compare)] if isinstance(e, ast.BoolOp) and isinstance(e.op, ast.And) else [])
                 for c in comps:
-                    if any(isinstance(x, ast.Subscript) and isinstance(x.value, ast.Name) and x.value.id == 'num' for x in ast.walk(c.left)):
-                        found = (e, c)
+                    has_num = lambda side: any(isinstance(x, ast.Subscript) and isinstance(x.value, ast.Name) and x.value.id == 'num' for x in ast.walk(side))
+                    if len(c.ops) == 1 and type(c.ops[0]) in MIRROR_OP and has_num(c.comparators[0]) and not has_num(c.left):
+                        c_ = mirror_compare(c)       # bound < num[k]  is  num[k] > bound
+                        found = (e, c_, c)
+                    elif has_num(c.left):
+                        found = (e, c, c)
             key = '%s :: %s' % (label, norm(mu)[:50])
             if found is None:
                 run.ob('GD2.multiplicity-guard', key, False,
                        'a path reaches this mutation without passing the multiplicity test: an inadmissible count modifies the object', site(fi, mu))
                 continue
-            e, c = found
+            e, c, c_orig = found
             # exact inequality in normal form:  num[k] - bound > 0   (strict)
             sub = Subst(fi.node)
             ok_form, why = False, ''
@@ -210,7 +214,7 @@ def guard_rule(m, run, fi, op):
                 svar = [a for a in rhs.atoms() if not ('degree' in a.split('.')[-1])]
                 sdef = None
                 if len(svar) == 1:
-                    ds = sc.reaching(svar[0], c)
+                    ds = sc.reaching(svar[0], c_orig)
                     if len(ds) == 1 and isinstance(ds[0][1], ast.Call):
                         sdef = ds[0][1]
                 deg = 'obj.degree' + ('' if kind == 'Curve' else '_' + AXN[k])
@@ -228,9 +232,9 @@ def guard_rule(m, run, fi, op):
                        % (norm(c), norm(sdef) if sdef is not None else '?', k, ('%s - s' % deg) if op == 'insert' else 's', k, AXN[k]))
                 ok_form = ok_form and okmult
             # the guard must be switchable only by check_num
-            others = [v for v in (e.values if isinstance(e, ast.BoolOp) else []) if v is not c]
+            others = [v for v in (e.values if isinstance(e, ast.BoolOp) else []) if v is not c_orig]
             ok_flag = all(isinstance(v, ast.Name) and sc.api_origin(v) == 'check_num' for v in others)
-            run.ob('GD2.multiplicity-guard', key, ok_form and ok_flag, why, site(fi, c))
+            run.ob('GD2.multiplicity-guard', key, ok_form and ok_flag, why, site(fi, c_orig))
     run.floor('GD2.multiplicity-guard', 12, '6 blocks x (set_ctrlpts, knot vector)')
 
 
